@@ -30,9 +30,25 @@ type InputSpec struct {
 	Source  string        `json:"source"`
 	// AllowedObjects: optional allowed_objects filter
 	AllowedObjects []string `json:"allowed_objects,omitempty"`
+	// Meta: schema metadata (kind / variant / identifier), e.g. a composable
+	// panelcfg plugin
+	Meta *InputMeta `json:"meta,omitempty"`
 	// FileName: file name to write the source under (OpenAPI derives the package
 	// of a cross-file reference from the referred file's name)
 	FileName string `json:"file_name,omitempty"`
+}
+
+type InputMeta struct {
+	Kind       string `json:"kind,omitempty"`
+	Variant    string `json:"variant,omitempty"`
+	Identifier string `json:"identifier,omitempty"`
+}
+
+func (m *InputMeta) ast() *ast.SchemaMeta {
+	if m == nil {
+		return nil
+	}
+	return &ast.SchemaMeta{Kind: ast.SchemaKind(m.Kind), Variant: ast.SchemaVariant(m.Variant), Identifier: m.Identifier}
 }
 
 // OutputSpec selects what is generated.
@@ -49,6 +65,8 @@ type OutputSpec struct {
 	PHP        *PhFlags `json:"php,omitempty"`
 	JSONSchema bool     `json:"jsonschema,omitempty"`
 	OpenAPI    bool     `json:"openapi,omitempty"`
+	// Veneers: contents of veneer YAML files (builder / option rewrite rules)
+	Veneers []string `json:"veneers,omitempty"`
 }
 
 type GoFlags struct {
@@ -77,7 +95,7 @@ func WriteInputs(dir string, inputs []InputSpec) ([]*codegen.Input, error) {
 			if err := os.WriteFile(p, []byte(in.Source), 0o644); err != nil {
 				return nil, err
 			}
-			out = append(out, &codegen.Input{JSONSchema: &codegen.JSONSchemaInput{Path: p, Package: in.Package, InputBase: codegen.InputBase{AllowedObjects: in.AllowedObjects}}})
+			out = append(out, &codegen.Input{JSONSchema: &codegen.JSONSchemaInput{Path: p, Package: in.Package, InputBase: codegen.InputBase{AllowedObjects: in.AllowedObjects, Metadata: in.Meta.ast()}}})
 		case smodel.OpenAPI:
 			p := filepath.Join(dir, fmt.Sprintf("in%02d_%s.openapi.json", i, in.Package))
 			if in.FileName != "" {
@@ -86,7 +104,7 @@ func WriteInputs(dir string, inputs []InputSpec) ([]*codegen.Input, error) {
 			if err := os.WriteFile(p, []byte(in.Source), 0o644); err != nil {
 				return nil, err
 			}
-			out = append(out, &codegen.Input{OpenAPI: &codegen.OpenAPIInput{Path: p, Package: in.Package, InputBase: codegen.InputBase{AllowedObjects: in.AllowedObjects}}})
+			out = append(out, &codegen.Input{OpenAPI: &codegen.OpenAPIInput{Path: p, Package: in.Package, InputBase: codegen.InputBase{AllowedObjects: in.AllowedObjects, Metadata: in.Meta.ast()}}})
 		case smodel.CUE:
 			d := filepath.Join(dir, fmt.Sprintf("in%02d", i), in.Package)
 			if err := os.MkdirAll(d, 0o755); err != nil {
@@ -95,7 +113,7 @@ func WriteInputs(dir string, inputs []InputSpec) ([]*codegen.Input, error) {
 			if err := os.WriteFile(filepath.Join(d, "schema.cue"), []byte(in.Source), 0o644); err != nil {
 				return nil, err
 			}
-			out = append(out, &codegen.Input{Cue: &codegen.CueInput{Entrypoint: d, Package: in.Package, InputBase: codegen.InputBase{AllowedObjects: in.AllowedObjects}}})
+			out = append(out, &codegen.Input{Cue: &codegen.CueInput{Entrypoint: d, Package: in.Package, InputBase: codegen.InputBase{AllowedObjects: in.AllowedObjects, Metadata: in.Meta.ast()}}})
 		default:
 			return nil, fmt.Errorf("unknown format %q", in.Format)
 		}
@@ -114,6 +132,18 @@ func NewPipeline(workDir string, outDir string, inputs []InputSpec, o OutputSpec
 		return nil, err
 	}
 	p.Inputs = ins
+	if len(o.Veneers) > 0 {
+		vdir := filepath.Join(workDir, "veneers")
+		if err := os.MkdirAll(vdir, 0o755); err != nil {
+			return nil, err
+		}
+		for i, content := range o.Veneers {
+			if err := os.WriteFile(filepath.Join(vdir, fmt.Sprintf("v%02d.yaml", i)), []byte(content), 0o644); err != nil {
+				return nil, err
+			}
+		}
+		p.Transforms.VeneersDirectories = []string{vdir}
+	}
 	p.Output.Directory = outDir
 	p.Output.Types, p.Output.Builders, p.Output.Converters, p.Output.APIReference = o.Types, o.Builders, o.Converters, o.APIReference
 	if o.Go != nil {
